@@ -848,6 +848,10 @@ def helper_target_cases(P, res):
                     attrs[(SPEC, 'column')] = EXPR_AST
                     attrs[(SPEC, 'ordering')] = Sym('ORDERING')
                     env = {'self': SELF, fi.params[1]: SList([SPEC]), fi.params[2]: SList(tg)}
+                # whatever else the clause compiler is told about the statement (DISTINCT, LIMIT ...) may hold or not: a helper
+                # expression is invisible in every statement
+                for i_, extra in enumerate(fi.params[3:]):
+                    env[extra] = T('attr', (Sym('STATEMENT'), f'option_{extra}'))
                 for p in run(fi, env, attrs, found):
                     label = f'{clause} by an expression that {"matches target 2" if found is not None else "is not among the targets"}' \
                         + (' with a HAVING clause' if having else '')
@@ -1173,12 +1177,12 @@ def rule_inop(P) -> RuleResult:
     res.exhaustive = True
     fi = _method(P, '_inop')
     NODE, LEFT, RIGHT, OP = Sym('NODE'), Sym('C_LEFT'), Sym('C_RIGHT'), Sym('OPERATOR')
-    for kind in ('subquery-1-column', 'subquery-2-columns', 'list-or-value'):
+    for kind in ('subquery-1-column', 'subquery-2-columns', 'subquery-0-columns', 'list-or-value'):
         def on_attr(base, attr, ex):
             if base == NODE and attr in ('left', 'right'):
                 return Sym('AST_' + attr)
             if base == RIGHT and attr == 'columns':
-                return SList([Sym('COL0')] if kind == 'subquery-1-column' else [Sym('COL0'), Sym('COL1')])
+                return SList([Sym('COL0')] if kind == 'subquery-1-column' else [] if kind == 'subquery-0-columns' else [Sym('COL0'), Sym('COL1')])
             return NotImplemented
 
         def on_call(fname, fval, recv, args, kwargs, ex, node):
@@ -1213,10 +1217,11 @@ def rule_inop(P) -> RuleResult:
                          f'subquery no longer runs as written (its DISTINCT / LIMIT / ORDER BY interact), so `x IN (q)` differs from membership '
                          f'in the rows of q', loc(fi))
                 continue
-            if kind == 'subquery-2-columns':
+            if kind in ('subquery-2-columns', 'subquery-0-columns'):
                 if not (p.outcome == 'raise' and p.value[0] == 'CompilationError'):
-                    res.fail(fi.fq, 'inop:columns', f'a subquery with more than one column on the right of IN must be rejected with a '
-                             f'CompilationError; got {p.outcome} `{show(p.value)[:60]}`', loc(fi))
+                    res.fail(fi.fq, 'inop:columns', f'a subquery with {"more than one column" if kind == "subquery-2-columns" else "no column at all (SELECT * on the null table)"} '
+                             f'on the right of IN must be rejected with a CompilationError: membership needs exactly one column; got {p.outcome} '
+                             f'`{show(p.value)[:60]}`', loc(fi))
                 continue
             want_right = T('new', ('EvalConstantSubquery1D', (RIGHT,))) if kind == 'subquery-1-column' else RIGHT
             if p.outcome != 'return' or p.value != T('new', ('OPNODE', (LEFT, want_right))):
@@ -1628,4 +1633,52 @@ def rule_nodebuild(P) -> RuleResult:
             else:
                 res.fail(fi.fq, 'nodebuild:column', f'a column name that {"exists" if present else "does not exist"} in the table must give {want}; '
                          f'it gives `{show(p.value)[:100]}` ({p.outcome}) after looking up {[show(a) for a in asked]}', loc(fi))
+    return res
+
+
+# ----------------------------------------------------------------------
+# R-CONSTTYPE (C04, C17, C01): a constant announces the exact class of its value
+
+def rule_consttype(P) -> RuleResult:
+    """EvalConstant on terms: without an explicit dtype the node announces type(value) - the class the renderers, the overload lookup
+    and numberify dispatch on, so that an Inventory / Position / Amount handed in as a query parameter is a column of that type, and a
+    bool is not an int; with a dtype it announces that dtype; evaluated on any row it gives the value itself."""
+    res = RuleResult('R-CONSTTYPE')
+    res.exhaustive = True
+    ci = P.cls('beanquery.query_compile', 'EvalConstant')
+    init, call = ci.methods.get('__init__'), ci.methods.get('__call__')
+    if init is None or call is None:
+        raise AnalysisError('anchor vanished: EvalConstant.__init__ / __call__')
+    NODE_, VALUE, DT = Sym('CONSTANT_NODE'), T('attr', (Sym('CALLER'), 'value')), Sym('GIVEN_DTYPE')
+    for given in (False, True):
+        announced = []
+
+        def on_call(fn, fv, rc, a, k, ex, nd):
+            if str(fn).endswith('__init__'):
+                announced.append(tuple(a) + tuple(v for _, v in k))
+                return None
+            return NotImplemented
+        heap = {}
+        n = 0
+        for p in Engine(P, on_call=on_call, max_depth=0).paths(init, {'self': NODE_, init.params[1]: VALUE, init.params[2]: DT if given else None}):
+            n += 1
+            got = announced[-1] if announced else ()
+            want = DT if given else T('call', ('type', (VALUE,), ()))
+            cond = f' when {" and ".join(show(t)[:50] + " is " + str(o) for t, o in p.decisions)}' if p.decisions else ''
+            if p.outcome == 'raise' or len(got) != 1 or got[0] != want:
+                res.fail(init.fq, 'consttype:dtype', f'EvalConstant(value{", dtype" if given else ""}) must announce '
+                         f'{"the dtype given" if given else "type(value), the exact class of the value"}; it announces '
+                         f'`{", ".join(show(x)[:80] for x in got) or "nothing"}`{cond}', loc(init))
+            elif p.heap.get(T('attr', (NODE_, 'value'))) != VALUE:
+                res.fail(init.fq, 'consttype:value', f'EvalConstant must keep the value it was given; it keeps `{show(p.heap.get(T("attr", (NODE_, "value"))))[:60]}`', loc(init))
+            else:
+                res.ok({'constructor': 'EvalConstant(value, dtype)' if given else 'EvalConstant(value)', 'announces': 'dtype' if given else 'type(value)'})
+            announced.clear()
+        if n == 0:
+            raise AnalysisError(f'{init.fq}: no path on terms')
+    for p in Engine(P, max_depth=0).paths(call, {'self': NODE_, call.params[1]: Sym('ROW')}):
+        if p.outcome == 'return' and not p.decisions and p.value == T('attr', (NODE_, 'value')):
+            res.ok({'evaluation': 'the value, on any row'})
+        else:
+            res.fail(call.fq, 'consttype:call', f'a constant evaluates to its value on every row; found `{show(p.value)[:60]}`', loc(call))
     return res
